@@ -21,7 +21,7 @@ def main():
         rc, out = sh("git -C /repo worktree add --detach %s HEAD" % WT, "/")
         assert rc == 0, out
     else:
-        sh("git checkout -q --detach $(git -C /repo rev-parse HEAD) && git checkout -- .", WT)
+        sh("git reset -q --hard && git clean -fdq -e VH && git checkout -q --detach $(git -C /repo rev-parse HEAD)", WT)
     head = sh("git rev-parse --short HEAD", WT)[1].strip()
     vh = os.path.join(WT, "VH")
     os.makedirs(vh, exist_ok=True)
@@ -39,7 +39,9 @@ def main():
             continue
         meta = json.load(open(os.path.join(m, "meta.json")))
         res = {"id": tag, "property": prop, "repo_head": head, "verif_head": verif_head}
-        sh("git checkout -- . && git clean -fdq -- cfdp-core/tests cfdp-daemon/tests cfdp-core/src cfdp-daemon/src", WT)
+        dirty = sh("git status --porcelain --untracked-files=no", WT)[1].strip()
+        assert not dirty, "scratch worktree not clean: " + dirty
+        sh("git reset -q --hard && git clean -fdq -e VH", WT)
         placed = []
         for rel, src in meta.get("demo_files", {}).items():
             srcp = os.path.join(m, src)
@@ -66,7 +68,7 @@ def main():
             res["detected_by"] = [c for c, r in res["checks"].items() if r["rc"] == 1]
         else:
             res["error"] = out[-500:]
-        sh("git checkout -- . ", WT)
+        sh("git reset -q --hard", WT)
         for f in placed:
             try: os.remove(f)
             except OSError: pass
